@@ -655,6 +655,9 @@ class PoolTheory(Theory):
         if isinstance(val, SeqV) and name == "append":
             if place is None:
                 raise Unsupported("append on a detached list")
+            hook = getattr(self, "on_append", None)
+            if hook is not None:
+                hook(st, fr, place, val, pos[0])
             ip.place_set(st, place, val.append(self.pack_self(st, pos[0])))
             return [(st, NoneV())]
         if isinstance(val, EventV):
